@@ -70,17 +70,6 @@ structure PackageAssignments.TermsValid (pa : PackageAssignments S V) : Prop whe
 def PartialSolution.TermsValid (ps : PartialSolution P S V Pr) : Prop :=
   ∀ kv ∈ ps.assignments, kv.2.TermsValid
 
-theorem SmallMap.mem_of_get {K T : Type} [DecidableEq K] {m : SmallMap K T} {k : K} {v : T}
-    (h : SmallMap.get m k = some v) : (k, v) ∈ m := by
-  induction m with
-  | nil => simp [SmallMap.get] at h
-  | cons x m ih =>
-    obtain ⟨k', v'⟩ := x
-    simp only [SmallMap.get] at h
-    split at h
-    · simp_all
-    · exact List.mem_cons_of_mem _ (ih h)
-
 namespace PartialSolution
 
 theorem termsValid_empty : (PartialSolution.empty : PartialSolution P S V Pr).TermsValid := by
